@@ -1,0 +1,41 @@
+//go:build verif
+
+package storagesc
+
+// Verification hook (build tag `verif` only; add-only): read-only view of the stored storage
+// contract configuration and of the staged (pending) setting changes, decoded with the
+// contract's own keys and types; `valid` is the verdict of the contract's own validate().
+
+import (
+	cstate "0chain.net/chaincore/chain/state"
+)
+
+// VerifGovSettings returns the stored config as the contract's own string map, raw numeric values
+// of a few fields, validate()==nil, the owner id and the staged setting changes.
+func VerifGovSettings(balances cstate.StateContextI) (fields map[string]string, raw map[string]int64, valid bool, owner string, pending map[string]string, err error) {
+	conf, err := getConfig(balances)
+	if err != nil {
+		return nil, nil, false, "", nil, err
+	}
+	sm, err := conf.getConfigMap()
+	if err != nil {
+		return nil, nil, false, "", nil, err
+	}
+	raw = map[string]int64{
+		"min_write_price":             int64(conf.MinWritePrice),
+		"max_write_price":             int64(conf.MaxWritePrice),
+		"max_read_price":              int64(conf.MaxReadPrice),
+		"max_blobbers_per_allocation": int64(conf.MaxBlobbersPerAllocation),
+		"validators_per_challenge":    int64(conf.ValidatorsPerChallenge),
+		"min_alloc_size":              int64(conf.MinAllocSize),
+	}
+	ch, err := getSettingChanges(balances)
+	if err != nil {
+		return nil, nil, false, "", nil, err
+	}
+	pending = map[string]string{}
+	for k, v := range ch.Fields {
+		pending[k] = v
+	}
+	return sm.Fields, raw, conf.validate() == nil, conf.OwnerId, pending, nil
+}
